@@ -14,9 +14,10 @@ then).  The theorems:
   `Gen.ParseRules.rules`: a token on which `peek_valid_expression` answers true has an infix function.
   A change of the Rust table that gives a prefix-only token (`!`, `~`, a literal, …) a precedence
   reintroduces the hang and breaks this fact.
-* `progress` — with fuel `2·|ts| + 1` (`+ 2` for the loop, the argument list, `if` and statements, `+ 3` for
-  blocks) no function returns `fuel`, and each consumes at least one token when it succeeds (the loop and
-  the block: do not add tokens).
+* `progress` — with fuel `2·|ts| + 1` (`+ 2` for the loop, the argument list, `if`, `match` and its arms, array
+  elements, map pairs and statements, `+ 3` for blocks) no function returns `fuel`, and each consumes at least one
+  token when it succeeds (the loop and the block: do not add tokens).  `parseAlt_good` / `parsePats_good`: the same
+  for the alternatives of a match pattern.
 * `parseTop_total`, `parseTokens_total` — the statement-level entry with the driver's fuel `2·|ts| + 4`
   ends with `ok`, `err` or `skip` for EVERY token list.
 * `parse_text_total` — with `C01.scan_total`: for every source string, scanning ends without panic and the
@@ -24,8 +25,9 @@ then).  The theorems:
   statement over literals, identifiers, groups, prefix/binary operators, assignment, ranges, index, call);
   for those texts nothing is claimed about the real parser here (C01's differential run covers them).
 * `parseProgram_total`, `parseProgramTokens_total`, `parse_program_text_total` — the same for whole programs
-  (`parse_program` with `let`, `return`, expression statements, blocks, `while`, `loop`, `break`/`continue`,
-  `fn` statements, and `if`/`else`, `fn` literals as expressions).
+  (`parse_program` with `let`, `return`, expression statements, blocks, `while`, `loop`, loop labels,
+  `break`/`continue`, `fn` statements, filter statements, and `if`/`else`, `fn` literals, `match` with flat
+  patterns, array and map literals, `null`, `_` as expressions).
 -/
 namespace P2sh.Props.C01Parse
 open P2sh.Parser P2sh.Gen.ParseRules
@@ -97,6 +99,17 @@ theorem Le_mono {α n m} {r : Res (α × List Tok)} (h : Le r n) (hm : n ≤ m) 
 theorem Lt_mono {α n m} {r : Res (α × List Tok)} (h : Lt r n) (hm : n ≤ m) : Lt r m :=
   ⟨h.1, fun a rest e => by have := h.2 a rest e; omega⟩
 
+theorem Lt_ite {α n} {c : Prop} [Decidable c] {a b : Res (α × List Tok)} (ha : c → Lt a n) (hb : ¬ c → Lt b n) :
+    Lt (if c then a else b) n := by
+  split
+  · exact ha ‹_›
+  · exact hb ‹_›
+theorem Le_ite {α n} {c : Prop} [Decidable c] {a b : Res (α × List Tok)} (ha : c → Le a n) (hb : ¬ c → Le b n) :
+    Le (if c then a else b) n := by
+  split
+  · exact ha ‹_›
+  · exact hb ‹_›
+
 theorem bind_cases {α β} {m : Res α} {k : α → Res β} (P : Res β → Prop) (herr : P .err) (hskip : P .skip)
     (hnf : m ≠ .fuel) (hok : ∀ a, m = .ok a → P (k a)) : P (m.bind k) := by
   cases m with
@@ -167,11 +180,101 @@ theorem parseParams_good (ts : List Tok) : Le (parseParams ts) ts.length := by
       · have := parseParamsTail_le rest0 [s0] ps r h; simp only [List.length_cons]; omega
     · exact Le_skip
 
+theorem litAtom_nf (t : Tok) : litAtom t ≠ .fuel := by
+  cases t <;> simp only [litAtom] <;> (repeat' split) <;> simp
+
+theorem dollarOperand_good (ts : List Tok) : Lt (dollarOperand ts) ts.length := by
+  cases ts with
+  | nil => exact Lt_err
+  | cons a rest =>
+    simp only [dollarOperand, List.length_cons]
+    split
+    · exact bind_cases (Lt · _) Lt_err Lt_skip (decimalAtom_nf a) (fun e _ => Lt_ok (Nat.le_refl _))
+    · split
+      · exact bind_cases (Lt · _) Lt_err Lt_skip (identAtom_nf a) (fun e _ => Lt_ok (Nat.le_refl _))
+      · exact Lt_err
+
+theorem patAtomOf_nf (t : Tok) : patAtomOf t ≠ .fuel := by
+  cases t with
+  | lit tt s =>
+    simp only [patAtomOf]
+    split
+    · exact bind_cases (· ≠ .fuel) (by simp) (by simp) (litAtom_nf _) (fun e _ => by cases e <;> simp only [] <;> (try split) <;> simp)
+    · split <;> simp
+  | _ => simp only [patAtomOf] <;> (repeat' split) <;> simp
+
+theorem finishPats_nf (ps : List (Option PPat)) : finishPats ps ≠ .fuel := by
+  unfold finishPats
+  split
+  · simp
+  · dsimp only
+    split
+    · simp
+    · split <;> simp
+
+theorem finishArms_nf (arms : List PArm) : finishArms arms ≠ .fuel := by
+  unfold finishArms
+  split
+  · split
+    · split <;> simp
+    · simp
+  · simp
+
+/-- one alternative of a match pattern ends and consumes at least its first token -/
+theorem parseAlt_good (ts : List Tok) : Lt (parseAlt ts) ts.length := by
+  unfold parseAlt
+  cases ts with
+  | nil => exact Lt_err
+  | cons a rest =>
+    simp only [List.length_cons]
+    refine bind_cases (Lt · _) Lt_err Lt_skip (patAtomOf_nf a) (fun x _ => ?_)
+    split
+    · split <;> first | exact Lt_err | exact Lt_skip
+    · split
+      · split
+        · exact Lt_err
+        · rename_i b rest3 hr
+          have h1 := tail_le rest
+          rw [hr] at h1
+          simp only [List.length_cons] at h1
+          refine bind_cases (Lt · _) Lt_err Lt_skip (patAtomOf_nf b) (fun y _ => ?_)
+          split
+          · exact Lt_err
+          · split
+            · split
+              · exact Lt_ok (by omega)
+              · exact Lt_err
+            · exact Lt_skip
+      · split
+        · exact Lt_ok (by omega)
+        · exact Lt_skip
+
+/-- the alternatives of a match pattern: with `2·|ts| + 1` fuel the loop over `|` ends -/
+theorem parsePats_good : ∀ (F : Nat) (acc : List (Option PPat)) (ts : List Tok), 2 * ts.length + 1 ≤ F →
+    Lt (parsePats F acc ts) ts.length := by
+  intro F
+  induction F with
+  | zero => intros; omega
+  | succ F ih =>
+    intro acc ts hF
+    rw [parsePats.eq_2]
+    have hA := parseAlt_good ts
+    refine bind_cases (Lt · _) Lt_err Lt_skip hA.1 (fun a ha => ?_)
+    obtain ⟨p, rest⟩ := a
+    have := hA.2 p rest ha
+    have := tail_le rest
+    dsimp only
+    split
+    · exact Lt_mono (ih _ rest.tail (by omega)) (by omega)
+    · exact Lt_ok (by omega)
+
 -- decomposes a goal `Lt/Le (body at fuel F+1) n` given the induction hypotheses `ihP … ihS` and `hF` in context
 set_option hygiene false in
 macro "prog_auto" : tactic => `(tactic|
   repeat (first
     | exact Lt_err | exact Lt_skip | exact Le_err | exact Le_skip
+    | refine Lt_ite (fun _ => ?_) (fun _ => ?_)
+    | refine Le_ite (fun _ => ?_) (fun _ => ?_)
     | split
     | (apply Lt_ok; omega) | (apply Le_ok; omega)
     | (refine Lt_of_Le (ihL _ _ _ (by omega)) (by omega))
@@ -193,7 +296,24 @@ macro "prog_auto" : tactic => `(tactic|
     | (refine bind_cases (Le · _) Le_err Le_skip (ihS _ (by omega)).1 (fun a ha => ?_); obtain ⟨x, r⟩ := a;
        have := (ihS _ (by omega)).2 _ _ ha; dsimp only)
     | (refine bind_cases (Lt · _) Lt_err Lt_skip (parseParams_good _).1 (fun a ha => ?_); obtain ⟨x, r⟩ := a;
-       have := (parseParams_good _).2 _ _ ha; have := tail_le r; have := tail_le r.tail; dsimp only)))
+       have := (parseParams_good _).2 _ _ ha; have := tail_le r; have := tail_le r.tail; dsimp only)
+    | (refine Lt_mono (ihET _ _ (by omega)) (by omega))
+    | (refine Lt_mono (ihR _ _ (by omega)) (by omega))
+    | (refine Lt_mono (ihK _ _ (by omega)) (by omega))
+    | (refine bind_cases (Lt · _) Lt_err Lt_skip (ihM _ (by omega)).1 (fun a ha => ?_); obtain ⟨x, r⟩ := a;
+       have := (ihM _ (by omega)).2 _ _ ha; dsimp only)
+    | (refine bind_cases (Lt · _) Lt_err Lt_skip (ihE _ (by omega)).1 (fun a ha => ?_); obtain ⟨x, r⟩ := a;
+       have := (ihE _ (by omega)).2 _ _ ha; dsimp only)
+    | (refine bind_cases (Lt · _) Lt_err Lt_skip (ihK _ _ (by omega)).1 (fun a ha => ?_); obtain ⟨x, r⟩ := a;
+       have := (ihK _ _ (by omega)).2 _ _ ha; dsimp only)
+    | (refine bind_cases (Lt · _) Lt_err Lt_skip (ihR _ _ (by omega)).1 (fun a ha => ?_); obtain ⟨x, r⟩ := a;
+       have := (ihR _ _ (by omega)).2 _ _ ha; dsimp only)
+    | (refine bind_cases (Lt · _) Lt_err Lt_skip (ihO _ (by omega)).1 (fun a ha => ?_); obtain ⟨x, r⟩ := a;
+       have := (ihO _ (by omega)).2 _ _ ha; have := tail_le r; dsimp only)
+    | (refine bind_cases (Lt · _) Lt_err Lt_skip (parsePats_good _ _ _ (by omega)).1 (fun a ha => ?_); obtain ⟨x, r⟩ := a;
+       have := (parsePats_good _ _ _ (by omega)).2 _ _ ha; have := tail_le r; have := tail_le r.tail; dsimp only)
+    | (refine bind_cases (Lt · _) Lt_err Lt_skip (finishPats_nf _) (fun a ha => ?_); try dsimp only)
+    | (refine bind_cases (Lt · _) Lt_err Lt_skip (finishArms_nf _) (fun a ha => ?_); try dsimp only)))
 
 set_option maxHeartbeats 2000000 in
 /-- **progress**: with `2·|ts| + 1` fuel (`+ 2` for the loop and the argument list) every function of the
@@ -205,14 +325,20 @@ theorem progress : ∀ F,
     (∀ acc ts, 2 * ts.length + 1 ≤ F → Lt (parseArgsTail F acc ts) ts.length) ∧
     (∀ ts, 2 * ts.length + 2 ≤ F → Lt (parseIf F ts) ts.length) ∧
     (∀ acc ts, 2 * ts.length + 3 ≤ F → Le (parseBlock F acc ts) ts.length) ∧
-    (∀ ts, 2 * ts.length + 2 ≤ F → Lt (parseStmt F ts) ts.length) := by
+    (∀ ts, 2 * ts.length + 2 ≤ F → Lt (parseStmt F ts) ts.length) ∧
+    (∀ ts, 2 * ts.length + 2 ≤ F → Lt (parseMatch F ts) ts.length) ∧
+    (∀ acc ts, 2 * ts.length + 2 ≤ F → Lt (parseArms F acc ts) ts.length) ∧
+    (∀ ts, 2 * ts.length + 2 ≤ F → Lt (parseElems F ts) ts.length) ∧
+    (∀ acc ts, 2 * ts.length + 1 ≤ F → Lt (parseElemsTail F acc ts) ts.length) ∧
+    (∀ acc ts, 2 * ts.length + 2 ≤ F → Lt (parseMapPairs F acc ts) ts.length) ∧
+    (∀ ts, 2 * ts.length + 2 ≤ F → Lt (parseArmBody F ts) ts.length) := by
   intro F
   induction F with
   | zero =>
-    refine ⟨?_, ?_, ?_, ?_, ?_, ?_, ?_⟩ <;> intros <;> omega
+    refine ⟨?_, ?_, ?_, ?_, ?_, ?_, ?_, ?_, ?_, ?_, ?_, ?_, ?_⟩ <;> intros <;> omega
   | succ F ih =>
-    obtain ⟨ihP, ihL, ihA, ihT, ihI, ihB, ihS⟩ := ih
-    refine ⟨?_, ?_, ?_, ?_, ?_, ?_, ?_⟩
+    obtain ⟨ihP, ihL, ihA, ihT, ihI, ihB, ihS, ihM, ihR, ihE, ihET, ihK, ihO⟩ := ih
+    refine ⟨?_, ?_, ?_, ?_, ?_, ?_, ?_, ?_, ?_, ?_, ?_, ?_, ?_⟩
     · intro c ts hF
       cases ts with
       | nil => rw [parseExpr.eq_2]; exact Lt_err
@@ -257,6 +383,22 @@ theorem progress : ∀ F,
               have := tail_lt_of_peek hlp (by decide)
               prog_auto
             · exact Lt_err
+          · exact Lt_of_Le (ihL c _ rest (by omega)) (Nat.le_refl _)
+          · exact Lt_of_Le (ihL c _ rest (by omega)) (Nat.le_refl _)
+          · prog_auto
+          · prog_auto
+          · have := tail_le rest
+            prog_auto
+          · refine bind_cases (Lt · _) Lt_err Lt_skip (litAtom_nf t) (fun a _ => ?_)
+            split
+            · exact Lt_err
+            · exact Lt_of_Le (ihL c a rest (by omega)) (Nat.le_refl _)
+          · exact Lt_of_Le (ihL c _ rest (by omega)) (Nat.le_refl _)
+          · have hD := dollarOperand_good rest
+            refine bind_cases (Lt · _) Lt_err Lt_skip hD.1 (fun a ha => ?_)
+            obtain ⟨e, rest2⟩ := a
+            have := hD.2 e rest2 ha
+            exact Lt_of_Le (ihL c _ rest2 (by omega)) (by omega)
     · intro c l ts hF
       cases ts with
       | nil => rw [loop.eq_2]; exact Le_ok (Nat.le_refl _)
@@ -344,6 +486,70 @@ theorem progress : ∀ F,
         have := labelOf_le rest
         have : (t :: rest).length = rest.length + 1 := rfl
         prog_auto
+    · intro ts hF
+      rw [parseMatch.eq_2]
+      prog_auto
+    · intro acc ts hF
+      rw [parseArms.eq_2]
+      have := tail_le ts
+      split
+      · rename_i h
+        have := tail_lt_of_peek h (by decide)
+        prog_auto
+      · refine Lt_ite (fun _ => Lt_err) (fun _ => ?_)
+        have hQ := parsePats_good F [] ts (by omega)
+        refine bind_cases (Lt · _) Lt_err Lt_skip hQ.1 (fun a ha => ?_)
+        obtain ⟨ps, r1⟩ := a
+        have := hQ.2 _ _ ha
+        have := tail_le r1
+        try dsimp only
+        refine bind_cases (Lt · _) Lt_err Lt_skip (finishPats_nf _) (fun pats _ => ?_)
+        try dsimp only
+        refine Lt_ite (fun _ => ?_) (fun _ => Lt_err)
+        have hO := ihO r1.tail (by omega)
+        refine bind_cases (Lt · _) Lt_err Lt_skip hO.1 (fun a ha => ?_)
+        obtain ⟨b, r2⟩ := a
+        have := hO.2 _ _ ha
+        have := tail_le r2
+        try dsimp only
+        refine Lt_ite (fun _ => Lt_err) (fun _ => ?_)
+        refine Lt_mono (ihR _ _ ?_) ?_
+        · split <;> omega
+        · split <;> omega
+    · intro ts hF
+      rw [parseElems.eq_2]
+      split
+      · rename_i h; exact Lt_ok (tail_lt_of_peek h (by decide))
+      · have hP := ihP assignRank ts (by omega)
+        refine bind_cases (Lt · _) Lt_err Lt_skip hP.1 (fun a ha => ?_)
+        obtain ⟨e, rest'⟩ := a
+        have := hP.2 e rest' ha
+        exact Lt_mono (ihET [e] rest' (by omega)) (by omega)
+    · intro acc ts hF
+      rw [parseElemsTail.eq_2]
+      split
+      · rename_i h
+        have := tail_lt_of_peek h (by decide)
+        have hP := ihP assignRank ts.tail (by omega)
+        refine bind_cases (Lt · _) Lt_err Lt_skip hP.1 (fun a ha => ?_)
+        obtain ⟨e, rest'⟩ := a
+        have := hP.2 e rest' ha
+        exact Lt_mono (ihET _ rest' (by omega)) (by omega)
+      · split
+        · rename_i h; exact Lt_ok (tail_lt_of_peek h (by decide))
+        · exact Lt_err
+    · intro acc ts hF
+      rw [parseMapPairs.eq_2]
+      split
+      · rename_i h; exact Lt_ok (tail_lt_of_peek h (by decide))
+      · prog_auto
+    · intro ts hF
+      rw [parseArmBody.eq_2]
+      split
+      · rename_i h
+        have := tail_lt_of_peek h (by decide)
+        prog_auto
+      · prog_auto
 
 /-! ## totality -/
 
@@ -401,7 +607,7 @@ theorem parseProgram_total : ∀ (F : Nat) (acc : List PStmt) (ts : List Tok), 2
     rw [parseProgram]
     split
     · simp
-    · have hS := (progress F).2.2.2.2.2.2 ts (by omega)
+    · have hS := (progress F).2.2.2.2.2.2.1 ts (by omega)
       refine bind_cases (· ≠ .fuel) (by simp) (by simp) hS.1 (fun a ha => ?_)
       obtain ⟨s, rest⟩ := a
       have := hS.2 s rest ha
@@ -415,8 +621,9 @@ theorem parseProgramTokens_total (ts : List P2sh.Scanner.Token) : parseProgramTo
 
 /-- **parse_program_text_total**: for every source text, scanning ends without panic and the program-level
 parser model ends on the tokens: with the statement list (`ok`), with "an error was reported" (`err`), or
-with `skip` = the text uses a construct outside the model (strings, floats, arrays, maps, `match`, dot
-expressions, labels, filters, …), about which nothing is claimed here -/
+with `skip` = the text uses a construct outside the model (dot expressions,
+match patterns that are not `|`-separated atoms or ranges of two atoms, non-identifier parameters, `else` followed
+by neither `if` nor `{`), about which nothing is claimed here -/
 theorem parse_program_text_total (src : String) :
     ∃ ts, P2sh.Scanner.scan src = .ok ts ∧
       ((∃ p, parseProgramTokens ts = .ok p) ∨ parseProgramTokens ts = .err ∨ parseProgramTokens ts = .skip) := by
@@ -445,5 +652,46 @@ example : parseProgram 40 [] [.t "Let", .ident "x", .t "Assign", .int 1, .t "Sem
 -- an unterminated block is accepted (as in the code); `let` without a name is an error
 example : parseProgram 10 [] [.t "LeftBrace", .int 1, .t "Eof"] = .ok [.block [.exprS (.int 1)]] := by rfl
 example : parseProgram 10 [] [.t "Let", .t "Assign", .int 1, .t "Eof"] = .err := by rfl
+
+/-! ### `match`, labels, filters, array and map literals -/
+-- `match x { 1 | 2 => 3, _ => { 4 } }`
+example : parseProgram 40 [] [.t "Match", .ident "x", .t "LeftBrace", .int 1, .t "BitwiseOr", .int 2, .t "MatchArm", .int 3, .t "Comma",
+    .t "Underscore", .t "MatchArm", .t "LeftBrace", .int 4, .t "RightBrace", .t "RightBrace", .t "Eof"] =
+    .ok [.exprS (.matchE (.ident "x") [.mk [.pint 1, .pint 2] [.exprS (.int 3)], .mk [.pdef] [.exprS (.int 4)]])] := by rfl
+-- `match x { 1..2 => 3 }`: the missing `_` arm is added with the body `null`
+example : parseProgram 40 [] [.t "Match", .ident "x", .t "LeftBrace", .int 1, .t "RangeEx", .int 2, .t "MatchArm", .int 3, .t "RightBrace", .t "Eof"] =
+    .ok [.exprS (.matchE (.ident "x") [.mk [.prange "RangeEx" (.int 1) (.int 2)] [.exprS (.int 3)], .mk [.pdef] [.exprS .null]])] := by rfl
+-- `match x { _ => 1, 2 => 3 }` ("unreachable pattern"), `match x { _ | 1 => 2 }`, `match x { y => 2 }`, `match x { 1 2 }`, `match x { 1 => 2`: errors
+example : parseProgram 40 [] [.t "Match", .ident "x", .t "LeftBrace", .t "Underscore", .t "MatchArm", .int 1, .t "Comma", .int 2, .t "MatchArm", .int 3,
+    .t "RightBrace", .t "Eof"] = .err := by rfl
+example : parseProgram 40 [] [.t "Match", .ident "x", .t "LeftBrace", .t "Underscore", .t "BitwiseOr", .int 1, .t "MatchArm", .int 2, .t "RightBrace", .t "Eof"] = .err := by rfl
+example : parseProgram 40 [] [.t "Match", .ident "x", .t "LeftBrace", .ident "y", .t "MatchArm", .int 2, .t "RightBrace", .t "Eof"] = .err := by rfl
+example : parseProgram 40 [] [.t "Match", .ident "x", .t "LeftBrace", .int 1, .int 2, .t "RightBrace", .t "Eof"] = .err := by rfl
+example : parseProgram 40 [] [.t "Match", .ident "x", .t "LeftBrace", .int 1, .t "MatchArm", .int 2, .t "Eof"] = .err := by rfl
+-- a pattern outside the flat form (`(1) => 2`, a string literal): nothing is claimed
+example : parseProgram 40 [] [.t "Match", .ident "x", .t "LeftBrace", .t "LeftParen", .int 1, .t "RightParen", .t "MatchArm", .int 2, .t "RightBrace", .t "Eof"] = .skip := by rfl
+example : parseProgram 40 [] [.t "Match", .ident "x", .t "LeftBrace", .t "Dollar", .int 1, .t "MatchArm", .int 2, .t "RightBrace", .t "Eof"] = .skip := by rfl
+-- `match x { "a" | 'b'..'c' => $1 }`; a char literal of two characters is an error
+example : parseProgram 40 [] [.t "Match", .ident "x", .t "LeftBrace", .lit "Str" "a", .t "BitwiseOr", .lit "Char" "b", .t "RangeEx", .lit "Char" "c",
+    .t "MatchArm", .t "Dollar", .int 1, .t "RightBrace", .t "Eof"] =
+    .ok [.exprS (.matchE (.ident "x") [.mk [.plit "Str" "a", .prange "RangeEx" (.lit "Char" "b") (.lit "Char" "c")] [.exprS (.un "Dollar" (.int 1))],
+      .mk [.pdef] [.exprS .null]])] := by rfl
+example : parseProgram 40 [] [.lit "Char" "ab", .t "Eof"] = .err := by rfl
+-- `a: loop { break a; }`, `a: 1` (error)
+example : parseProgram 40 [] [.ident "a", .t "Colon", .t "Loop", .t "LeftBrace", .t "Break", .ident "a", .t "Semicolon", .t "RightBrace", .t "Eof"] =
+    .ok [.loopL "a" [.breakS (some "a")]] := by rfl
+example : parseProgram 40 [] [.ident "a", .t "Colon", .int 1, .t "Eof"] = .err := by rfl
+-- `@ x { 1 }`, `@ end { }`, `@ x`, `@ end 1` (error), `@ x;` (error: the `;` is not skipped)
+example : parseProgram 40 [] [.t "Filter", .ident "x", .t "LeftBrace", .int 1, .t "RightBrace", .t "Eof"] = .ok [.filterS (.expr (.ident "x")) [.exprS (.int 1)]] := by rfl
+example : parseProgram 40 [] [.t "Filter", .t "End", .t "LeftBrace", .t "RightBrace", .t "Eof"] = .ok [.filterS .fend []] := by rfl
+example : parseProgram 40 [] [.t "Filter", .ident "x", .t "Eof"] = .ok [.filterP (.ident "x")] := by rfl
+example : parseProgram 40 [] [.t "Filter", .t "End", .int 1, .t "Eof"] = .err := by rfl
+example : parseProgram 40 [] [.t "Filter", .ident "x", .t "Semicolon", .t "Eof"] = .err := by rfl
+-- `[1, x][0]`, `map {1: 2,}`, `[1 2]` (error)
+example : parseProgram 40 [] [.t "LeftBracket", .int 1, .t "Comma", .ident "x", .t "RightBracket", .t "LeftBracket", .int 0, .t "RightBracket", .t "Eof"] =
+    .ok [.exprS (.index (.arr [.int 1, .ident "x"]) (.int 0))] := by rfl
+example : parseProgram 40 [] [.t "Map", .t "LeftBrace", .int 1, .t "Colon", .int 2, .t "Comma", .t "RightBrace", .t "Eof"] =
+    .ok [.exprS (.map [.mk (.int 1) (.int 2)])] := by rfl
+example : parseProgram 40 [] [.t "LeftBracket", .int 1, .int 2, .t "RightBracket", .t "Eof"] = .err := by rfl
 
 end P2sh.Props.C01Parse
